@@ -2,6 +2,7 @@
 naive datetimes (vlib.symdt).  Oracles are predicates over the calendar model (field level / epoch
 level), independent of the route the code takes."""
 import datetime as _dt
+import os
 from fractions import Fraction
 
 from vlib import engine as E
@@ -217,6 +218,13 @@ def conc_real(inputs, name):
 
 def run(e, cfg):
     e.tz = cfg.get("tz", "utc")
+    if isinstance(e.tz, list):
+        e.tz = tuple(e.tz)
+    if e.tz != "utc":
+        # module-level code of labella (e.g. an EPOCH constant) must run under the modelled zone too
+        from vlib import instr
+
+        instr.fresh_import()
     sink = props.SymSink(e)
     k = cfg["kind"]
     if k == "time-c17":
@@ -237,11 +245,7 @@ def replay(cfg, inputs, check, info, tag):
     import os
     import time as _time
 
-    tzs = None
-    if cfg.get("tz", "utc") != "utc" and "tz_off1_quarters" in inputs:
-        tzs = posix_tz(inputs, cfg["tz"])
-        os.environ["TZ"] = tzs
-        _time.tzset()
+    tzs = os.environ.get("TZ")
     sink = props.ConcSink()
     real = {}
 
@@ -621,3 +625,60 @@ def max_of(xs, sink):
         if c is True or (c is not False and (sink.e.branch(c) if sink.mode == "sym" else bool(c))):
             m = x
     return m
+
+
+# ------------------------------------------------------------------------------------ C18
+REAL_TZ = {
+    # name: (transition instant UTC, offset before [min], offset after [min])  -- from the system tzdata, year 2021
+    "America/New_York#spring": ("America/New_York", "2021-03-14T07:00:00", -300, -240),
+    "America/New_York#fall": ("America/New_York", "2021-11-07T06:00:00", -240, -300),
+    "Australia/Lord_Howe#apr": ("Australia/Lord_Howe", "2021-04-03T15:00:00", 660, 630),
+    "Pacific/Chatham#sep": ("Pacific/Chatham", "2021-09-25T14:00:00", 765, 825),
+}
+
+
+def tz_models():
+    out = [("const", dict(tz="const", tzname="<from-model>"))]
+    for k, (name, tr, o1, o2) in REAL_TZ.items():
+        tr_us = int((_dt.datetime.fromisoformat(tr) - _dt.datetime(1970, 1, 1)).total_seconds()) * 10**6
+        out.append((k.replace("/", "_"), dict(tz=["real", tr_us, o1 * 60 * 10**6, o2 * 60 * 10**6], tzname=name, ylo=2021, yhi=2021)))
+    return out
+
+
+def c18_configs(tier):
+    out = []
+    base = []
+    for c in c17_configs(tier):
+        if c["op"] == "range" and (c.get("dt", 1) != 1 or tier == "quick" and c["unit"] not in ("hour", "week")):
+            continue
+        if c["op"] == "offset" and c.get("k") not in (1,):
+            continue
+        base.append(c)
+    base += c15_configs(tier)
+    anchors_tz = ["2021-03-10T12:00:00", "2021-11-03T09:30:00", "2021-04-01T00:00:00", "2021-09-20T06:00:00"]
+    for kind, fn in (("time-c16", c16_configs), ("time-c14", lambda t: nice_configs(t))):
+        for c in fn("quick"):
+            if c["m"] != 10 or c.get("anchor") != ANCHORS[0]:
+                continue
+            if not (7 <= c["win"] <= 16):
+                continue
+            for ai, a in enumerate(anchors_tz):
+                d = dict(c)
+                d["anchor"] = a
+                d["name"] = c["name"].replace("anchor0", "tzanchor%d" % ai)
+                base.append(d)
+    for tag, upd in tz_models():
+        for c in base:
+            if c["kind"] in ("time-c16", "time-c14") and tag == "const" and c["name"].endswith(("tzanchor1", "tzanchor2", "tzanchor3")):
+                continue
+            if c["kind"] in ("time-c16", "time-c14") and tag != "const":
+                # each real transition with the anchor that precedes it
+                want = {"America_New_York#spring": "tzanchor0", "America_New_York#fall": "tzanchor1", "Australia_Lord_Howe#apr": "tzanchor2", "Pacific_Chatham#sep": "tzanchor3"}[tag]
+                if not c["name"].endswith(want):
+                    continue
+            d = dict(c)
+            d.update(upd)
+            d["name"] = "tz-%s-%s" % (tag, c["name"])
+            d.pop("shards", None)
+            out.append(d)
+    return out
